@@ -216,6 +216,10 @@ class LoopSpec(object):
     """
     modifies = ()
 
+    def enter(self, it, fr):
+        """called once when control reaches the loop: record ghost 'old' values of the frame if the invariant needs them"""
+        pass
+
     def havoc(self, it, fr, k):
         raise NotImplementedError
 
